@@ -498,6 +498,22 @@ def check(case, ctx):
     capref = math.fsum(math.log2(1.0 + x) for x in flat)
     ctx.close("sum_capacity", abs(cap - capref), 1e-11 * (1.0 + capref),
               "calc_sum_capacity %r, sum log2(1+SINR) %r" % (cap, capref), t)
+    # the library's stand-alone helper on the same SINRs, and on the SINRs
+    # of a whole frame (sub-carriers x streams, 20..40 dB: more than 1024
+    # bit/s/Hz in total)
+    from pyphysim.util.misc import calc_shannon_sum_capacity
+    c1 = float(calc_shannon_sum_capacity(flat.copy()))
+    ctx.close("sum_capacity", abs(c1 - capref), 1e-11 * (1.0 + capref),
+              "calc_shannon_sum_capacity %r, sum log2(1+SINR) %r" %
+              (c1, capref), t)
+    rsf = np.random.RandomState(int(case["chan_seed"]) % (2 ** 31) + 99)
+    frame = 10.0 ** rsf.uniform(2.0, 4.0, size=(8 + K * 6, 8))
+    c2 = float(calc_shannon_sum_capacity(frame.copy()))
+    ref2 = math.fsum(math.log2(1.0 + x) for x in frame.reshape(-1))
+    ctx.close("sum_capacity", abs(c2 - ref2), 1e-11 * (1.0 + ref2),
+              "calc_shannon_sum_capacity of a %dx8 frame: %r, sum "
+              "log2(1+SINR) %r" % (frame.shape[0], c2, ref2), t)
+    ctx.label("sum_capacity_helper_and_frame")
     # solver.calc_Q: interference (+ noise, + external interference at the
     # default power 1) covariance of the loaded precoders
     for k in range(K):
